@@ -223,7 +223,9 @@ func (tr *Tr) Register(h string, c Cfg) {
 	st := &hstate{cfg: c}
 	if c.Kind == "rec" && c.Match == "none" {
 		// anonymous handler, as a task's alert node registers them
-		st.rec = rt.NewRecHandler(h)
+		// every anonymous recorder is created with the SAME contents (name "anon", nothing recorded yet): two handlers
+		// are two registrations because they are two objects, whatever they contain; the driver tells them apart by pointer
+		st.rec = rt.NewRecHandler("anon")
 		st.anon = true
 		tr.svc.S.RegisterAnonHandler(tr.real(c.Topic), st.rec)
 	} else {
